@@ -510,14 +510,24 @@ fn do_remapping_loop_one_device(driver: &mut impl Driver, layout: Layout, verbos
             },
             WorkingRepeat::Repeating { keys, next_wakeup, interval_ms } => {
               if !in_tablet_mode {
-                let mut repeat_send = Vec::new();
+                // Keys that are already down on the virtual keyboard stay down:
+                // tapping them here would lift a key that is still meant to be held.
+                let mut chord: Vec<KeyCode> = Vec::new();
                 for key in &keys {
+                  if !mapper.is_output_held(key) && !chord.contains(key) {
+                    chord.push(*key);
+                  }
+                }
+                let mut repeat_send = Vec::new();
+                for key in &chord {
                   repeat_send.push(Pressed(*key));
                 }
-                for key in (&keys).iter().rev() {
+                for key in chord.iter().rev() {
                   repeat_send.push(Released(*key));
                 }
-                driver.send(&repeat_send)?;
+                if !repeat_send.is_empty() {
+                  driver.send(&repeat_send)?;
+                }
                 working_repeat = WorkingRepeat::Repeating {
                   keys,
                   next_wakeup: next_wakeup + Duration::from_millis(interval_ms as u64),
